@@ -497,7 +497,7 @@ where
       let r ← reqField fs "result" parseSeq
       let rl ← seqListOnly r
       match name with
-      | "union-check" => pure (.obj (ofBool (unionOk k.kw.eqv l1 l2 rl)))
+      | "union-check" => pure (.obj (ofBool (unionOk k.kw.eqv l1 l2 rl && unionTight k.kw.eqv l1 l2 rl)))
       | "intersection-check" => pure (.obj (ofBool (intersectionOk k.kw.eqv l1 l2 rl)))
       | _ => pure (.obj (ofBool (setDifferenceOk k.kw.eqv l1 l2 rl)))
   | "every" | "some" | "notany" | "notevery" | "mapcar" | "map" =>
